@@ -118,20 +118,23 @@ func (ex *Exec) modifiesHavoc(blk *Block, recv Value, lead []Value, args []Value
 			continue
 		}
 		for _, what := range strings.FieldsFunc(c.Text, func(r rune) bool { return r == ',' || r == ' ' }) {
+			// forms: p (whole pointee), p.f (one field of the pointee), *p.f (what the pointer field p.f points to)
+			deref := strings.HasPrefix(what, "*")
 			what = strings.TrimPrefix(what, "*")
+			parts := strings.Split(what, ".")
 			var target Value
 			switch {
-			case what == blk.RecvName() && blk.RecvName() != "":
+			case parts[0] == blk.RecvName() && blk.RecvName() != "":
 				if recv != nil {
 					target = recv
 				} else if len(lead) > 0 {
 					target = lead[0]
 				}
-			case what == "self" && len(lead) > 0:
+			case parts[0] == "self" && len(lead) > 0:
 				target = lead[0]
 			default:
 				for i, n := range blk.ParamNames() {
-					if n == what && i < len(args) {
+					if n == parts[0] && i < len(args) {
 						target = args[i]
 					}
 				}
@@ -143,7 +146,36 @@ func (ex *Exec) modifiesHavoc(blk *Block, recv Value, lead []Value, args []Value
 			if len(pv.Path) != 0 {
 				unsupported("modifies through an interior pointer")
 			}
-			st.store[pv.Loc] = ex.havocValue(blk.Key()+"."+what, pv.Loc.Typ, st)
+			if len(parts) == 1 {
+				st.store[pv.Loc] = ex.havocValue(blk.Key()+"."+what, pv.Loc.Typ, st)
+				continue
+			}
+			// one field
+			stt, isS := pv.Loc.Typ.Underlying().(*types.Struct)
+			if !isS || len(parts) != 2 {
+				unsupported("modifies %s: only p, p.f and *p.f are supported", what)
+			}
+			fidx := -1
+			for i := 0; i < stt.NumFields(); i++ {
+				if stt.Field(i).Name() == parts[1] {
+					fidx = i
+				}
+			}
+			if fidx < 0 {
+				unsupported("modifies %s: no such field", what)
+			}
+			cur := ex.load(st, pv.Loc).(*StructV)
+			if deref {
+				fp, isP := cur.Fields[fidx].(*PtrV)
+				if !isP || fp.Nil || len(fp.Path) != 0 {
+					unsupported("modifies *%s: field is not a plain pointer", what)
+				}
+				st.store[fp.Loc] = ex.havocValue(blk.Key()+"."+what, fp.Loc.Typ, st)
+				continue
+			}
+			nv := &StructV{Fields: append([]Value(nil), cur.Fields...)}
+			nv.Fields[fidx] = ex.havocValue(blk.Key()+"."+what, stt.Field(fidx).Type(), st)
+			st.store[pv.Loc] = nv
 		}
 	}
 }
@@ -321,6 +353,8 @@ func (ex *Exec) flattenAny(v Value, st *State, out *[]*Term) {
 		if !x.Nil {
 			ex.flattenAny(x.V, st, out)
 		}
+	case *OpaqueTokV:
+		*out = append(*out, x.ID)
 	case *OpaqueV, *UFArrayV, nil:
 	default:
 		unsupported("argument of kind %T in an uninterpreted application", v)
@@ -349,4 +383,19 @@ func (ex *Exec) ufResult(name string, t types.Type, args []*Term, st *State) Val
 	}
 	unsupported("uninterpreted function with result type %s", t)
 	return nil
+}
+
+// OpaqueTokV is the whole state of an object of an abstract type: nothing but an identity
+// that changes whenever a contract says the object is modified.
+type OpaqueTokV struct {
+	ID *Term
+}
+
+func (ex *Exec) isAbstractType(t types.Type) bool {
+	n, ok := t.(*types.Named)
+	if !ok || n.Obj().Pkg() == nil {
+		return false
+	}
+	at := ex.prog.AbstractTypes[ex.targetPkg]
+	return at != nil && at[n.Obj().Pkg().Name()+"."+n.Obj().Name()]
 }
